@@ -5,6 +5,7 @@ mod show;
 mod sx;
 #[path = "more.rs"]
 mod more;
+mod ser;
 
 use std::alloc::{GlobalAlloc, Layout, System};
 use std::io::{BufRead, Write};
